@@ -243,7 +243,13 @@ def parseArgv (stdin : String) : List String → Option Cmd
 def stdoutOf (c : Cmd) (s : FwState) : String × String :=
   match c with
   | .iptList f t =>
-    (String.join ((s.ipt f t).map fun ch => "Chain " ++ showCName ch.name ++ " (policy ACCEPT)\n"), "")
+    (String.join ((s.ipt f t).map fun ch =>
+      "Chain " ++ showCName ch.name ++ " (policy ACCEPT)\n" ++
+      String.join (ch.rules.map fun r =>
+        (match r.tgt with
+         | .none => ""
+         | .std x => x
+         | .chain c => showCName c) ++ " all -- " ++ " ".intercalate r.args ++ "\n")), "")
   | .pf .showAll =>
     ("FILTER RULES:\n" ++ String.join (s.pf.main.map fun l => l ++ "\n") ++
       "\nINFO:\nStatus: " ++ (if s.pf.enabled then "Enabled" else "Disabled") ++ "\n", "")
